@@ -51,7 +51,8 @@ class C03(core.Check):
                  '&amp', '<div/><div/>', '<!DOCTYPE', '<script>x</div>', '<style>', '\x00<p>\x00</p>', '<p>\U0001F600</p>&#x1F600;',
                  '<!-- c --><!DOCTYPE html><p>a</p>', '<!----><!DOCTYPE html><br/>', '<!-- saved from url -->\n<!DOCTYPE html>\n<html><body>x</body></html>',
                  '<!-- c -->\n<!DOCTYPE html>', '<?pi?><!DOCTYPE html><p>a</p>', 'x<!DOCTYPE html><p>a</p>', '\n \t<!DOCTYPE html><p>a</p><p>b</p>',
-                 '<!-- a --><!-- b --><p>a</p>', '<p>a</p><!DOCTYPE html><p>b</p>']
+                 '<!-- a --><!-- b --><p>a</p>', '<p>a</p><!DOCTYPE html><p>b</p>',
+                 '<div>a</div><?php echo 1; ?>', '<br><?x y?>', '<span/>\n<??>', '<?xml version="1.0"?><p>a</p>', '<p><?pi?></p><?pi2?>tail']
         for s in fixed:
             cases.append(dict(cls='plain', html=s, second='<p>next</p>'))
             cases.append(dict(cls='indexed', html=s, second='<p>next</p>', flags=[True, True, True, True]))
